@@ -281,14 +281,18 @@ theorem exit_ok_only (c : LoopCfg) (b : Bucket) (s : St) (i : In)
   | beforeInfo =>
     rw [goRaw_beforeInfo hpc] at he ⊢
     have hE : EndsIteration c s := Or.inl hpc
-    by_cases hg : s.env.lastTxn > s.lastSynced
+    by_cases hg : s.env.lastTxn > s.lastSynced ∨ s.forceArmed = true
     · rw [if_pos hg] at he ⊢
       by_cases hown : s.waiting.contains c.own = true
       · rw [if_pos hown] at he ⊢
         obtain ⟨a, b', c'⟩ := hAS s rfl he; exact ⟨a, b', c', hE⟩
       · rw [if_neg hown] at he ⊢
-        rw [if_pos (Or.inr (by omega))] at he
-        cases he
+        by_cases hd : s.hasDataAtStart = true ∨ s.env.lastTxn > 0
+        · rw [if_pos hd] at he
+          cases he
+        · rw [if_neg hd] at he ⊢
+          obtain ⟨a, b', c'⟩ := hAS { s with lastSynced := s.env.lastTxn } rfl he
+          exact ⟨a, b', c', hE⟩
     · rw [if_neg hg] at he ⊢
       obtain ⟨a, b', c'⟩ := hAS s rfl he; exact ⟨a, b', c', hE⟩
   | beforeSend =>
@@ -308,8 +312,7 @@ theorem exit_ok_only (c : LoopCfg) (b : Bucket) (s : St) (i : In)
       split at he <;> cases he
   | sendStored who t =>
     rw [goRaw_sendStored hpc] at he ⊢
-    obtain ⟨a, b', c', d⟩ := hSR
-      { s with committed := s.lastBy.foldl (fun acc p => setAssoc acc p.1 p.2) s.committed } who t rfl he
+    obtain ⟨a, b', c', d⟩ := hSR (stored s) who t rfl he
     subst d
     exact ⟨a, b', c', Or.inr (Or.inl ⟨t, hpc⟩)⟩
   | sleep => rw [goRaw_sleep hpc] at he; cases he
@@ -321,7 +324,7 @@ theorem exit_ok_only (c : LoopCfg) (b : Bucket) (s : St) (i : In)
 /-! ## nothing local to publish -/
 
 /-- `lastSynced` has caught up with `lastTxn` (and the loop is not in its send part) -/
-def Synced (s : St) : Prop :=
+def Caught (s : St) : Prop :=
   match s.pc with
   | .top => s.env.lastTxn ≤ s.lastSynced
   | .beforeInfo => s.env.lastTxn ≤ s.lastSynced
@@ -330,27 +333,34 @@ def Synced (s : St) : Prop :=
   | .exited _ => True
   | _ => False
 
-instance (s : St) : Decidable (Synced s) := by unfold Synced; split <;> infer_instance
+instance (s : St) : Decidable (Caught s) := by unfold Caught; split <;> infer_instance
+
+/-- nothing local to publish: `lastSynced` has caught up with `lastTxn` (`Caught`) and no
+    snapshot is overdue (`storage_force_snapshot_interval`: the force flag is not armed) -/
+def Synced (s : St) : Prop := Caught s ∧ s.forceArmed = false
+
+instance (s : St) : Decidable (Synced s) := by unfold Synced; infer_instance
 
 /-- **Merging never triggers an upload.** From a state in which `lastSynced` has caught up, a
     segment — whatever the receiver hands over, whatever the snapshot contains — ends in such a
     state again and does not touch the bucket. -/
 theorem synced_go (c : LoopCfg) (b : Bucket) (s : St) (i : In) (h : Synced s) :
     Synced (go c b s i).1 ∧ (go c b s i).2 = b := by
+  obtain ⟨h, hu⟩ := h
   have hb : (go c b s i).2 = b := by
     rcases go_bucket c b s i with ⟨⟨⟨who, t, ts, snap, hp⟩, _⟩, _⟩ | ⟨_, hb⟩
-    · unfold Synced at h; rw [hp] at h; exact absurd h id
+    · unfold Caught at h; rw [hp] at h; exact absurd h id
     · exact hb
-  refine ⟨?_, hb⟩
+  refine ⟨⟨?_, go_unarmed hu⟩, hb⟩
   obtain ⟨g1, _, g3, g4⟩ := go_pc c b s i
-  have hcongr : ∀ s' : St, Synced s' → (go c b s i).1.pc = s'.pc → (go c b s i).1.env = s'.env →
-      (go c b s i).1.lastSynced = s'.lastSynced → Synced (go c b s i).1 := by
+  have hcongr : ∀ s' : St, Caught s' → (go c b s i).1.pc = s'.pc → (go c b s i).1.env = s'.env →
+      (go c b s i).1.lastSynced = s'.lastSynced → Caught (go c b s i).1 := by
     intro s' hs e1 e2 e3
-    unfold Synced at hs ⊢
+    unfold Caught at hs ⊢
     rw [e1, e2, e3]; exact hs
   refine hcongr (goRaw c b s i).1 ?_ g1 g3 g4
   have hload : ∀ (s1 : St) (n : Nat) (s' : St), s1.env.lastTxn ≤ s1.lastSynced →
-      (s' = afterLoads s1 ∨ PollOut c b s1 i n s') → Synced s' := by
+      (s' = afterLoads s1 ∨ PollOut c b s1 i n s') → Caught s' := by
     intro s1 n s' hle hout
     rcases hout with rfl | hp
     · exact hle
@@ -363,7 +373,7 @@ theorem synced_go (c : LoopCfg) (b : Bucket) (s : St) (i : In) (h : Synced s) :
         refine ⟨?_, ?_⟩
         · rw [hlc]; simp; omega
         · dsimp only; omega
-  unfold Synced at h
+  unfold Caught at h
   cases hpc : s.pc with
   | boot => rw [hpc] at h; exact absurd h id
   | beforeSend => rw [hpc] at h; exact absurd h id
@@ -385,11 +395,11 @@ theorem synced_go (c : LoopCfg) (b : Bucket) (s : St) (i : In) (h : Synced s) :
     exact hload _ n _ hle (Or.inr (poll_out c b _ i n))
   | beforeInfo =>
     rw [hpc] at h
-    rw [goRaw_beforeInfo hpc]
+    rw [goRaw_beforeInfo_unarmed hpc hu]
     rw [if_neg (by simp only at h; omega)]
     simp only
     obtain ⟨f1, f2, _, _, _, f6⟩ := afterSend_facts c s
-    unfold Synced
+    unfold Caught
     rcases f6 with f6 | ⟨f6, _⟩ <;> rw [f6]
     · simp only; rw [f1, f2]; exact h
     · trivial
@@ -399,7 +409,7 @@ theorem synced_go (c : LoopCfg) (b : Bucket) (s : St) (i : In) (h : Synced s) :
     exact h
   | exited e =>
     rw [goRaw_exited hpc]
-    unfold Synced; rw [hpc]; trivial
+    unfold Caught; rw [hpc]; trivial
 
 /-- the blobs other instances stored during a schedule -/
 def othersOf : List Ev → List Blob
@@ -431,11 +441,154 @@ theorem synced_run (c : LoopCfg) (g : G) (evs : List Ev) (hs : Synced g.st) (hna
         obtain ⟨hpc, hS, _⟩ := appCommit_facts g.st ops
         have hL := recorded_false h1
         show Synced (appCommit g.st ops)
-        unfold Synced at hs ⊢
+        refine ⟨?_, (appCommit_force g.st ops).trans hs.2⟩
+        have hs := hs.1
+        unfold Caught at hs ⊢
         rw [hpc, hS, hL]; exact hs
       | list => exact ⟨hs, rfl⟩
       | others bs => exact ⟨hs, by show (g.bucket ++ bs) ++ _ = _; rw [List.append_assoc]; rfl⟩
     obtain ⟨a, b⟩ := ih (step c g e) hstep.1 h2
     exact ⟨a, by show (runFrom c (step c g e) es).bucket = _; rw [b, hstep.2]⟩
+
+/-! ## the own-instance guard, for armed states too
+
+  `Inv0` speaks about the schedules of `Ev`, which never arm the force flag. The start-up guard
+  "no upload while the own instance is in the waiting set" must hold whether or not a snapshot is
+  overdue (`storage_force_snapshot_interval` must not bypass it): it is an invariant of `go` from
+  ARBITRARY states, of application transactions, listings and of the harness's arming. -/
+
+/-- at the yield points of the send part the own instance is not waited for, and a start-up
+    `SendOnce` has an empty waiting set -/
+def OwnGuard (c : LoopCfg) (s : St) : Prop :=
+  match s.pc with
+  | .beforeSend => c.own ∉ s.waiting
+  | .sendAfterTxn who _ _ _ => c.own ∉ s.waiting ∧ (who = .initial → s.waiting = [])
+  | .sendStored who _ => c.own ∉ s.waiting ∧ (who = .initial → s.waiting = [])
+  | _ => True
+
+theorem OwnGuard.congr {c : LoopCfg} {s s' : St} (h : OwnGuard c s) (h1 : s'.pc = s.pc)
+    (h2 : s'.waiting = s.waiting) : OwnGuard c s' := by
+  unfold OwnGuard at h ⊢
+  rw [h1, h2]; exact h
+
+theorem ownGuard_of_plain {c : LoopCfg} {s : St}
+    (h : s.pc = .top ∨ s.pc = .sleep ∨ s.pc = .beforeInfo ∨ (∃ e, s.pc = .exited e) ∨
+      ∃ t lc inst ts n, s.pc = .loadAfterTxn t lc inst ts n) : OwnGuard c s := by
+  unfold OwnGuard
+  rcases h with h | h | h | ⟨e, h⟩ | ⟨t, lc, inst, ts, n, h⟩ <;> rw [h] <;> trivial
+
+/-- **the guard is kept by every segment, from every state — armed or not** -/
+theorem ownGuard_go (c : LoopCfg) (b : Bucket) (s : St) (i : In) (h : OwnGuard c s) :
+    OwnGuard c (go c b s i).1 := by
+  obtain ⟨g1, g2, _, _⟩ := go_pc c b s i
+  refine OwnGuard.congr (s := (goRaw c b s i).1) ?_ g1 g2
+  have hload : ∀ (s1 : St) (n : Nat) (s' : St),
+      (s' = afterLoads s1 ∨ PollOut c b s1 i n s') → OwnGuard c s' := by
+    intro s1 n s' hout
+    rcases hout with rfl | hp
+    · exact ownGuard_of_plain (Or.inr (Or.inr (Or.inl rfl)))
+    · cases hp with
+      | none hn => exact ownGuard_of_plain (Or.inr (Or.inr (Or.inl rfl)))
+      | unknown inst ts hn hb => exact ownGuard_of_plain (Or.inr (Or.inr (Or.inr (Or.inl ⟨_, rfl⟩))))
+      | failed inst ts blob e hn hb hl =>
+        exact ownGuard_of_plain (Or.inr (Or.inr (Or.inr (Or.inl ⟨_, rfl⟩))))
+      | loaded inst ts blob r hn hb hl =>
+        exact ownGuard_of_plain (Or.inr (Or.inr (Or.inr (Or.inr ⟨_, _, _, _, _, rfl⟩))))
+  have hAS : ∀ s0 : St, OwnGuard c (afterSend c s0) := by
+    intro s0
+    rcases (afterSend_facts c s0).2.2.2.2.2 with h | ⟨h, _⟩
+    · exact ownGuard_of_plain (Or.inr (Or.inl h))
+    · exact ownGuard_of_plain (Or.inr (Or.inr (Or.inr (Or.inl ⟨_, h⟩))))
+  have hSR : ∀ (s0 : St) who t, OwnGuard c (sendReturned c s0 who t) := by
+    intro s0 who t
+    rcases sendReturned_pc c s0 who t with h | h | ⟨e, h⟩
+    · exact ownGuard_of_plain (Or.inl h)
+    · exact ownGuard_of_plain (Or.inr (Or.inl h))
+    · exact ownGuard_of_plain (Or.inr (Or.inr (Or.inr (Or.inl ⟨_, h⟩))))
+  cases hpc : s.pc with
+  | boot =>
+    obtain ⟨_, hb⟩ := goRaw_boot (c := c) (b := b) (i := i) hpc
+    generalize (goRaw c b s i).1 = s' at hb ⊢
+    cases hb with
+    | captureFailed e s0 e1 e2 e3 => exact ownGuard_of_plain (Or.inr (Or.inr (Or.inr (Or.inl ⟨_, rfl⟩))))
+    | noSend s0 e1 e2 e3 e4 e5 e6 e7 => exact ownGuard_of_plain (Or.inl rfl)
+    | send s0 e1 e2 e3 e4 e5 e6 e7 =>
+      have hout := beginSend_out c s0 .initial i.now
+      generalize beginSend c s0 .initial i.now = s'' at hout ⊢
+      cases hout with
+      | failed e he => exact ownGuard_of_plain (Or.inr (Or.inr (Or.inr (Or.inl ⟨_, rfl⟩))))
+      | dumped r hr =>
+        show c.own ∉ s0.waiting ∧ (_ → s0.waiting = [])
+        rw [e2]; exact ⟨List.not_mem_nil, fun _ => rfl⟩
+  | top => rw [goRaw_top hpc]; exact hload s 0 _ (Or.inr (poll_out c b s i 0))
+  | loadAfterTxn t lc inst ts n =>
+    rw [goRaw_loadAfterTxn hpc]
+    split
+    · exact hload _ n _ (Or.inl rfl)
+    · exact hload _ n _ (Or.inr (poll_out c b _ i n))
+  | beforeInfo =>
+    rw [goRaw_beforeInfo hpc]
+    split
+    · split
+      · exact hAS s
+      · rename_i hown
+        split
+        · show c.own ∉ s.waiting
+          simpa using hown
+        · exact hAS _
+    · exact hAS s
+  | beforeSend =>
+    unfold OwnGuard at h; rw [hpc] at h
+    rw [goRaw_beforeSend hpc]
+    have hout := beginSend_out c s .loop i.now
+    generalize beginSend c s .loop i.now = s' at hout ⊢
+    cases hout with
+    | failed e he => exact ownGuard_of_plain (Or.inr (Or.inr (Or.inr (Or.inl ⟨_, rfl⟩))))
+    | dumped r hr => exact ⟨h, fun hc => (nomatch hc)⟩
+  | sendAfterTxn who t ts snap =>
+    unfold OwnGuard at h; rw [hpc] at h
+    rw [goRaw_sendAfterTxn hpc]
+    split
+    · exact hSR s who _
+    · split
+      · exact ownGuard_of_plain (Or.inr (Or.inr (Or.inr (Or.inl ⟨_, rfl⟩))))
+      · exact h
+  | sendStored who t => rw [goRaw_sendStored hpc]; exact hSR _ who t
+  | sleep => rw [goRaw_sleep hpc]; exact ownGuard_of_plain (Or.inl rfl)
+  | exited e => rw [goRaw_exited hpc]; exact ownGuard_of_plain (Or.inr (Or.inr (Or.inr (Or.inl ⟨e, hpc⟩))))
+
+/-- schedules with the harness's arming event ("loop.overdue"; here at ANY yield point, the
+    harness arms only at `top` and `sleep`) -/
+inductive EvA where
+  | ev (e : Ev)
+  | arm
+
+def stepA (c : LoopCfg) (g : G) : EvA → G
+  | .ev e => step c g e
+  | .arm => { g with st := armForce g.st }
+
+def runA (c : LoopCfg) (env : Env) (b : Bucket) (evs : List EvA) : G := evs.foldl (stepA c) (G.init env b)
+
+theorem ownGuard_stepA {c : LoopCfg} {g : G} (h : OwnGuard c g.st) (e : EvA) : OwnGuard c (stepA c g e).st := by
+  cases e with
+  | arm => exact h
+  | ev e =>
+    cases e with
+    | go i => exact ownGuard_go c g.bucket g.st i h
+    | app ops =>
+      obtain ⟨h1, _, h3, _⟩ := appCommit_facts g.st ops
+      exact h.congr h1 h3
+    | list => exact h
+    | others bs => exact h
+
+/-- **the own-instance guard holds after every schedule, arming included** -/
+theorem ownGuard_runA (c : LoopCfg) (env : Env) (b : Bucket) (evs : List EvA) :
+    OwnGuard c (runA c env b evs).st := by
+  unfold runA
+  have h0 : OwnGuard c (G.init env b).st := True.intro
+  generalize G.init env b = g at h0
+  induction evs generalizing g with
+  | nil => exact h0
+  | cons e es ih => exact ih _ (ownGuard_stepA h0 e)
 
 end Ls.Loop
